@@ -1,6 +1,7 @@
-// Package nbstate reads the private name table of nbtns.NetBIOSNameServer for the harnesses of C17 and C18
-// without depending on how the table is stored: the field is found by SHAPE (a map from string to NameRecord
-// or *NameRecord, whatever its name or position), records are returned by value.
+// Package nbstate reads the private name table of nbtns.NetBIOSNameServer for the harness of C17 without
+// depending on how the table is stored: every map from string to NameRecord or *NameRecord that is reachable
+// from the server value — directly, in an array or slice of shards, behind a pointer or an atomic.Pointer —
+// is found by SHAPE and merged; records are returned by value.
 package nbstate
 
 import (
@@ -20,28 +21,26 @@ func isTable(t reflect.Type) bool {
 	return e == recType || (e.Kind() == reflect.Ptr && e.Elem() == recType)
 }
 
-// Readable reports whether the table can be found in this version of the library.
-func Readable() bool {
-	rt := reflect.TypeOf(nbtns.NetBIOSNameServer{})
-	for i := 0; i < rt.NumField(); i++ {
-		if isTable(rt.Field(i).Type) {
-			return true
-		}
+func accessible(v reflect.Value) reflect.Value {
+	if v.CanInterface() || !v.CanAddr() {
+		return v
 	}
-	return false
+	return reflect.NewAt(v.Type(), unsafe.Pointer(v.UnsafeAddr())).Elem()
 }
 
-// Records returns a copy of every record of the table (nil, false when the table cannot be found).
-func Records(t *nbtns.NetBIOSNameServer) (map[string]nbtns.NameRecord, bool) {
-	v := reflect.ValueOf(t).Elem()
-	for i := 0; i < v.NumField(); i++ {
-		f := v.Field(i)
-		if !isTable(f.Type()) {
-			continue
+// walk collects the records of every table-shaped map reachable from v.
+func walk(v reflect.Value, depth int, seen map[uintptr]bool, out map[string]nbtns.NameRecord, found *bool) {
+	if depth > 8 || !v.IsValid() {
+		return
+	}
+	v = accessible(v)
+	switch v.Kind() {
+	case reflect.Map:
+		if !isTable(v.Type()) {
+			return
 		}
-		f = reflect.NewAt(f.Type(), unsafe.Pointer(f.UnsafeAddr())).Elem()
-		out := map[string]nbtns.NameRecord{}
-		it := f.MapRange()
+		*found = true
+		it := v.MapRange()
 		for it.Next() {
 			e := it.Value()
 			if e.Kind() == reflect.Ptr {
@@ -52,7 +51,86 @@ func Records(t *nbtns.NetBIOSNameServer) (map[string]nbtns.NameRecord, bool) {
 			}
 			out[it.Key().String()] = e.Interface().(nbtns.NameRecord)
 		}
-		return out, true
+	case reflect.Ptr, reflect.UnsafePointer:
+		if v.Kind() == reflect.UnsafePointer || v.IsNil() {
+			return
+		}
+		if seen[v.Pointer()] {
+			return
+		}
+		seen[v.Pointer()] = true
+		walk(v.Elem(), depth+1, seen, out, found)
+	case reflect.Interface:
+		if !v.IsNil() {
+			walk(v.Elem(), depth+1, seen, out, found)
+		}
+	case reflect.Struct:
+		if v.Type() == recType {
+			return
+		}
+		if !v.CanAddr() {
+			cp := reflect.New(v.Type()).Elem()
+			cp.Set(v)
+			v = cp
+		}
+		// atomic.Pointer[T] keeps its target in an unsafe.Pointer field: re-type it through the Load method's result
+		if m := v.Addr().MethodByName("Load"); m.IsValid() && m.Type().NumIn() == 0 && m.Type().NumOut() == 1 && m.Type().Out(0).Kind() == reflect.Ptr {
+			r := m.Call(nil)[0]
+			if !r.IsNil() {
+				walk(r, depth+1, seen, out, found)
+			}
+			return
+		}
+		for i := 0; i < v.NumField(); i++ {
+			walk(v.Field(i), depth+1, seen, out, found)
+		}
+	case reflect.Array, reflect.Slice:
+		ek := v.Type().Elem().Kind()
+		if ek == reflect.Uint8 || ek == reflect.String {
+			return
+		}
+		for i := 0; i < v.Len() && i < 4096; i++ {
+			walk(v.Index(i), depth+1, seen, out, found)
+		}
 	}
-	return nil, false
+}
+
+// typeHasTable reports whether a table-shaped map type occurs anywhere in t.
+func typeHasTable(t reflect.Type, depth int, seen map[reflect.Type]bool) bool {
+	if depth > 8 || seen[t] {
+		return false
+	}
+	seen[t] = true
+	switch t.Kind() {
+	case reflect.Map:
+		return isTable(t)
+	case reflect.Ptr, reflect.Array, reflect.Slice:
+		return typeHasTable(t.Elem(), depth+1, seen)
+	case reflect.Struct:
+		if m, ok := reflect.PointerTo(t).MethodByName("Load"); ok && m.Type.NumIn() == 1 && m.Type.NumOut() == 1 && m.Type.Out(0).Kind() == reflect.Ptr {
+			return typeHasTable(m.Type.Out(0), depth+1, seen)
+		}
+		for i := 0; i < t.NumField(); i++ {
+			if typeHasTable(t.Field(i).Type, depth+1, seen) {
+				return true
+			}
+		}
+	}
+	return false
+}
+
+// Readable reports whether the table can be found in this version of the library.
+func Readable() bool {
+	return typeHasTable(reflect.TypeOf(nbtns.NetBIOSNameServer{}), 0, map[reflect.Type]bool{})
+}
+
+// Records returns a copy of every record of the table (nil, false when no table-shaped map is reachable).
+func Records(t *nbtns.NetBIOSNameServer) (map[string]nbtns.NameRecord, bool) {
+	out := map[string]nbtns.NameRecord{}
+	found := false
+	walk(reflect.ValueOf(t).Elem(), 0, map[uintptr]bool{}, out, &found)
+	if !found {
+		return nil, false
+	}
+	return out, true
 }
